@@ -126,4 +126,39 @@ theorem rectWF_tightFill (hx : x < 65536) (hy : y < 65536) (hw : w < 65536) (hh 
     congr 1
     omega⟩
 
+/-- the strict parser reads back every length the C writer can produce (22 bits) -/
+theorem compactLen_encCompact (n : Nat) (hn : n < 4194304) (rest : Bytes) :
+    compactLen (encCompact n ++ rest) = some (n, (encCompact n).length) := by
+  have t2 : compactTwoFrom = 128 := rfl
+  have t3 : compactThreeFrom = 16384 := rfl
+  unfold encCompact
+  rw [t2, t3]
+  by_cases h1 : n < 128
+  · rw [if_pos h1]
+    have e0 : (UInt8.ofNat (n % 128)).toNat = n := by rw [toNat_ofNat_lt _ (by omega)]; omega
+    simp only [List.cons_append, List.nil_append, compactLen, e0, h1, if_true, List.length_cons,
+      List.length_nil]
+  · rw [if_neg h1]
+    have e0 : (UInt8.ofNat (n % 128 + 128)).toNat = n % 128 + 128 := toNat_ofNat_lt _ (by omega)
+    have g0 : ¬ (n % 128 + 128 < 128) := by omega
+    by_cases h2 : n < 16384
+    · rw [if_pos h2]
+      have e1 : (UInt8.ofNat (n / 128 % 128)).toNat = n / 128 := by
+        rw [toNat_ofNat_lt _ (by omega)]; omega
+      have g1 : n / 128 < 128 := by omega
+      simp only [List.cons_append, List.nil_append, compactLen, e0, g0, if_false, e1, g1, if_true,
+        List.length_cons, List.length_nil]
+      congr 2
+      omega
+    · rw [if_neg h2]
+      have e1 : (UInt8.ofNat (n / 128 % 128 + 128)).toNat = n / 128 % 128 + 128 :=
+        toNat_ofNat_lt _ (by omega)
+      have g1 : ¬ (n / 128 % 128 + 128 < 128) := by omega
+      have e2 : (UInt8.ofNat (n / 16384 % 256)).toNat = n / 16384 := by
+        rw [toNat_ofNat_lt _ (by omega)]; omega
+      simp only [List.cons_append, List.nil_append, compactLen, e0, g0, if_false, e1, g1, e2,
+        List.length_cons, List.length_nil]
+      congr 2
+      omega
+
 end VncModel.Wire
